@@ -405,6 +405,9 @@ struct Harness
                 break;
             }
             if (n != cnt || stop != i) { ck.fail("utf-len", "a_utf_len counted " + std::to_string(n) + " code points and stopped at " + std::to_string(stop) + ", expected " + std::to_string(cnt) + " / " + std::to_string(i)); return; }
+            // the count does not depend on whether the caller asks for the stop offset
+            a_size n0 = a_utf_len(s, nullptr);
+            if (n0 != cnt) { ck.fail("utf-len", "a_utf_len without a stop pointer counted " + std::to_string(n0) + " code points, with one " + std::to_string(n)); return; }
             break;
         }
         case S_CATF:
